@@ -311,7 +311,9 @@ def run_check(pid: str, tier: str, seed: int) -> int:
             continue
         budget = min(shrink_left, 45 if tier == 'quick' else 240)
         ts = time.monotonic()
-        if r is not None and budget > 5:
+        if r is not None and budget > 5 and hasattr(prop, 'shrink'):
+            best = prop.shrink(tier, r['seed'], per, sig, item, budget)
+        elif r is not None and budget > 5:
             best = shrink_signature(prop, tier, r['seed'], per, sig, item, budget)
         else:
             best = {'case': item[1], 'detail': item[2]}
